@@ -301,6 +301,14 @@ def run_one(desc: dict, controller: "Recorder | None" = None) -> dict:
             continue_on_failure=bool(desc.get("cof")),
         ))
         _verif.install(rec)
+        profile_before = None
+        if desc.get("profile_max"):
+            # a Hypothesis profile with a larger max_examples is loaded AFTER schemathesis was imported (history of the process)
+            import schemathesis.generation.hypothesis.builder  # noqa: F401  (imported, as in a long-lived process, BEFORE the profile switch)
+
+            profile_before = hypothesis.settings.default
+            hypothesis.settings.register_profile("verif-large", max_examples=int(desc["profile_max"]))
+            hypothesis.settings.load_profile("verif-large")
         try:
             stream = from_schema(schema, config=config).execute()
             n = 0
@@ -365,6 +373,9 @@ def run_one(desc: dict, controller: "Recorder | None" = None) -> dict:
                 rec.emit({"e": "CRASH", "err": fatal})
         finally:
             _verif.uninstall()
+            if profile_before is not None:
+                hypothesis.settings.register_profile("verif-restore", profile_before)
+                hypothesis.settings.load_profile("verif-restore")
     rec.emit({"e": "X", "code": int(ctx.exit_code)})
     # normalise: every line carries every field the trace spec may read (TLC records are strict)
     lines = []
